@@ -115,6 +115,7 @@ type layer06 struct {
 	Labels      [][2]string `json:"labels,omitempty"`
 	Annos       [][2]string `json:"annos,omitempty"`
 	RefName     string      `json:"ref_name,omitempty"` // a Deployment referring to ConfigMap RefName is listed
+	Plain       bool        `json:"plain,omitempty"`    // a ServiceAccount (refers to nothing) is listed
 }
 
 type case06 struct {
@@ -123,6 +124,8 @@ type case06 struct {
 	Files []kv06   `json:"files,omitempty"`
 	Gen   *gen06   `json:"gen,omitempty"`
 	Tree  *layer06 `json:"tree,omitempty"`
+	// implementation-only case: evaluated by the law oracles, not sent to the model
+	LawOnly bool `json:"law_only,omitempty"`
 }
 
 // ---------- Coq terms ----------
@@ -187,7 +190,7 @@ func coqLayer(l *layer06) string {
 	return fmt.Sprintf("(Layer [%s] (mkLdecl %s [%s] [%s] %s (mkGopts %s %s %s %s) %s %s %s %s %s %s))",
 		strings.Join(bases, "; "), coqKvs(l.Files), strings.Join(cms, "; "), strings.Join(secs, "; "),
 		coqBool(l.HasGenOpts), coqPairs(l.GLabels), coqPairs(l.GAnnos), coqBool(l.GDisable), coqBool(l.GImmutable),
-		coqStr(l.Ns), coqStr(l.Prefix), coqStr(l.Suffix), coqPairs(l.Labels), coqPairs(l.Annos), coqBool(l.RefName != ""))
+		coqStr(l.Ns), coqStr(l.Prefix), coqStr(l.Suffix), coqPairs(l.Labels), coqPairs(l.Annos), coqBool(l.RefName != "" || l.Plain))
 }
 
 // ---------- independent hash H (crypto/sha256 + an encoder written here, not encoding/json) ----------
@@ -539,6 +542,10 @@ func writeTree06(fs filesys.FileSystem, l *layer06, id string) string {
 	if l.RefName != "" {
 		res = append(res, "deploy.yaml")
 		_ = fs.WriteFile(dir+"/deploy.yaml", []byte(deployment06(l.RefName)))
+	}
+	if l.Plain {
+		res = append(res, "sa.yaml")
+		_ = fs.WriteFile(dir+"/sa.yaml", []byte("apiVersion: v1\nkind: ServiceAccount\nmetadata:\n  name: web\n"))
 	}
 	if len(res) > 0 {
 		b.WriteString("resources:\n")
@@ -1126,6 +1133,20 @@ func genTree06(rng *Rng) *layer06 {
 	return cur
 }
 
+// demoteRefs06: name references are not part of the C06 model (FixBackReferences is C03's; it can reject a build
+// with "found multiple possible referrals" when two generated ConfigMaps of different namespaces share a name).
+// Trees compared with the model therefore list a ServiceAccount instead of the referring Deployment; the
+// Deployment stays in the implementation-only law cases.
+func demoteRefs06(l *layer06) {
+	for _, b := range l.Bases {
+		demoteRefs06(b)
+	}
+	if l.RefName != "" {
+		l.RefName = ""
+		l.Plain = true
+	}
+}
+
 // ---------- the law oracles (implementation only) ----------
 
 func isChain06(t *layer06) ([]*layer06, bool) {
@@ -1149,7 +1170,7 @@ func isChain06(t *layer06) ([]*layer06, bool) {
 }
 
 func layerEmpty06(l *layer06) bool {
-	return len(l.Bases) == 0 && l.RefName == "" && len(l.CmGens) == 0 && len(l.SecGens) == 0 && !l.HasGenOpts &&
+	return len(l.Bases) == 0 && l.RefName == "" && !l.Plain && len(l.CmGens) == 0 && len(l.SecGens) == 0 && !l.HasGenOpts &&
 		l.Ns == "" && l.Prefix == "" && l.Suffix == "" && len(l.Labels) == 0 && len(l.Annos) == 0
 }
 
@@ -1325,7 +1346,27 @@ const (
 	clsNel06   = "literal-nel-folded-to-space"
 	clsNull06  = "hash-ignores-null-named-keys"
 	clsMerge06 = "hash-yaml-roundtrip-merge-key"
+	clsFatal06 = "build-exits-log.Fatal:null-named-key"
 )
+
+func treeHasNullKey06(l *layer06) bool {
+	for _, b := range l.Bases {
+		if treeHasNullKey06(b) {
+			return true
+		}
+	}
+	for _, gs := range [][]gen06{l.CmGens, l.SecGens} {
+		for _, g := range gs {
+			for _, p := range g.Intent {
+				switch string(p.K) {
+				case "~", "null", "Null", "NULL":
+					return true
+				}
+			}
+		}
+	}
+	return false
+}
 
 // keys go-yaml resolves to null when the hasher reads its own YAML text back
 func nullKey06(m map[string]string) bool {
@@ -1343,6 +1384,13 @@ func laws06(r *Run, c case06, ob buildObs06) {
 		r.Violation(OracleViolation{Law: law, Class: class, Detail: detail, Replay: c})
 	}
 	if ob.cls == ClsPanic || ob.cls == ClsDiverge {
+		// the one listed shape: the name-reference error message is built with Resource.MustYaml, which calls
+		// log.Fatal when a candidate object has a null-spelled key (its JSON form has a map[interface{}]interface{})
+		if ob.cls == ClsPanic && strings.HasPrefix(ob.msg, "log.Fatal:") &&
+			strings.Contains(ob.msg, "unsupported type: map[interface {}]interface {}") && treeHasNullKey06(t) {
+			viol("no-panic", clsFatal06, ob.msg)
+			return
+		}
 		viol("no-panic", "build-"+ob.cls, ob.msg)
 		return
 	}
@@ -1840,7 +1888,10 @@ func runC06(r *Run, rng *Rng, tier string) error {
 		"declaring 0-3 generators named cfg/app with behaviours create/merge/replace/unspecified/unknown, generatorOptions, namespace/namePrefix/nameSuffix/commonLabels/commonAnnotations, " +
 		"optionally a Deployment referring to the ConfigMap. non-trivial = a generated object came out; distinct by hash of the case term"
 	for _, c := range loadCorpus06() {
-		runOne06(r, rng.Fork(), c, true)
+		if c.Kind == "build" && !c.LawOnly {
+			demoteRefs06(c.Tree)
+		}
+		runOne06(r, rng.Fork(), c, !c.LawOnly)
 	}
 	nelProbe06(r)
 	for _, s := range []string{"", "abc", "abcdbcdecdefdefgefghfghighijhijkijkljklmklmnlmnomnopnopq"} {
@@ -1857,7 +1908,9 @@ func runC06(r *Run, rng *Rng, tier string) error {
 	}
 	for i := 0; i < nBuild; i++ {
 		g := rng.Fork()
-		runOne06(r, g, case06{Kind: "build", Tree: genTree06(g)}, true)
+		t := genTree06(g)
+		demoteRefs06(t)
+		runOne06(r, g, case06{Kind: "build", Tree: t}, true)
 	}
 	for i := 0; i < nLaw; i++ {
 		g := rng.Fork()
